@@ -78,6 +78,23 @@ def unit_frame_ast(S):
                 if not isinstance(fnode, (ast.FunctionDef, ast.AsyncFunctionDef, ast.Lambda)):
                     continue
                 nfuncs += 1
+                # mutable default arguments that the function mutates: state shared by all calls in the process
+                a_ = fnode.args
+                pos = a_.posonlyargs + a_.args
+                defaults = list(zip(pos[len(pos) - len(a_.defaults):], a_.defaults)) + [(p, d) for p, d in zip(a_.kwonlyargs, a_.kw_defaults) if d is not None]
+                for p, d in defaults:
+                    is_mut = isinstance(d, (ast.Dict, ast.List, ast.Set, ast.DictComp, ast.ListComp, ast.SetComp)) or (
+                        isinstance(d, ast.Call) and isinstance(d.func, ast.Name) and d.func.id in ("dict", "list", "set", "defaultdict", "OrderedDict", "deque"))
+                    if not is_mut:
+                        continue
+                    for n in ast.walk(fnode):
+                        hit = (isinstance(n, ast.Call) and isinstance(n.func, ast.Attribute) and isinstance(n.func.value, ast.Name) and n.func.value.id == p.arg and n.func.attr in MUT) or (
+                            isinstance(n, (ast.Assign, ast.AugAssign)) and any(isinstance(t, ast.Subscript) and isinstance(t.value, ast.Name) and t.value.id == p.arg
+                                                                               for t in (n.targets if isinstance(n, ast.Assign) else [n.target]))) or (
+                            isinstance(n, ast.AugAssign) and isinstance(n.target, ast.Name) and n.target.id == p.arg)
+                        if hit:
+                            offenders.append(f"{path}:{n.lineno} mutates its mutable default argument `{p.arg}` (shared across calls)")
+                            break
                 for n in ast.walk(fnode):
                     if isinstance(n, ast.Global):
                         offenders.append(f"{path}:{n.lineno} global {','.join(n.names)}")
